@@ -265,4 +265,9 @@ class If(raw_types.Operation):
         if subop_qasm is None:
             return None
         condition_qasm = " && ".join(protocols.qasm(c, args=args) for c in self._conditions)
-        return f'if ({condition_qasm}) {subop_qasm}'
+        lines = [line for line in subop_qasm.splitlines() if line.strip()]
+        if args.version == '3.0' and len(lines) > 1:
+            body = ''.join(f'  {line}\n' for line in lines)
+            return f'if ({condition_qasm}) {{\n{body}}}\n'
+        # An OpenQASM 2.0 `if` guards exactly one statement.
+        return ''.join(f'if ({condition_qasm}) {line}\n' for line in lines)
